@@ -52,6 +52,23 @@ func TestRegistryConsistentAlongHistories(t *testing.T) {
 		}
 		sawPoolDiff := false
 		opt.AfterBlock = func(h *sim.History, blk *types.Block) {
+			if checkRegistryAfterBlock(t, h, blk) {
+				sawPoolDiff = true
+			}
+		}
+		h := sim.RunHistory(t, opt)
+		if sawPoolDiff {
+			evid.NonTrivial(h.Descriptor())
+			evid.Sample("history", h.Descriptor())
+		}
+	})
+}
+
+// checkRegistryAfterBlock is the oracle of the history-based variants: incremental view == rebuilt view, registry ==
+// ledger. It returns true when the block's identity diff touched a pool or a delegator together with another address.
+func checkRegistryAfterBlock(t *rapid.T, h *sim.History, blk *types.Block) (sawPoolDiff bool) {
+	{
+		{
 			evid.Eval()
 			w := h.W
 			r := w.Replicas[0]
@@ -101,6 +118,26 @@ func TestRegistryConsistentAlongHistories(t *testing.T) {
 			if vc.OnlineSize() > 0 {
 				evid.Count("state.somebody_online")
 			}
+			for _, tx := range blk.Body.Transactions {
+				evid.Count("included." + sim.TxTypeNames[tx.Type])
+				if tx.Type == types.KillInviteeTx && tx.To != nil {
+					if prev, err := r.AppState.Readonly(blk.Height() - 1); err == nil && prev.ValidatorsCache.IsPool(*tx.To) {
+						evid.Count("kill.invitee_that_is_a_pool")
+						if prev.ValidatorsCache.IsOnlineIdentity(*tx.To) {
+							evid.Count("kill.invitee_that_is_an_online_pool")
+						}
+					}
+				}
+			}
+			for _, a := range w.Actors {
+				if vc.IsPool(a.Addr) && !s.IdentityState.IsValidated(a.Addr) {
+					evid.Count("state.pool_owner_not_validated")
+					if s.IdentityState.IsOnline(a.Addr) {
+						evid.Count("state.pool_owner_not_validated_online")
+					}
+					break
+				}
+			}
 			for _, a := range w.Actors {
 				if vc.IsPool(a.Addr) {
 					evid.Count("state.pool_exists")
@@ -108,12 +145,8 @@ func TestRegistryConsistentAlongHistories(t *testing.T) {
 				}
 			}
 		}
-		h := sim.RunHistory(t, opt)
-		if sawPoolDiff {
-			evid.NonTrivial(h.Descriptor())
-			evid.Sample("history", h.Descriptor())
-		}
-	})
+	}
+	return sawPoolDiff
 }
 
 // Chain-free variant: batches of registry changes (shapes the chain produces:
